@@ -326,6 +326,8 @@ func (w *xworld) doX(op []string) bool {
 		}
 	}
 	num := func(s string) (int, bool) { v, err := strconv.Atoi(s); return v, err == nil && v >= 0 }
+	// every wait ends as soon as the request has terminated: whatever was expected will not come any
+	// more, and the final comparison reports the difference
 	await := func(x *xreq) {
 		if x == nil {
 			return
@@ -336,12 +338,16 @@ func (w *xworld) doX(op []string) bool {
 			w.waitFor("block hooks of request "+strconv.Itoa(x.r), func() bool {
 				x.mu.Lock()
 				defer x.mu.Unlock()
-				return len(x.bhLog) >= n && (len(x.progress) >= nodesPerBlock*n || isClosed(x))
+				return isClosed(x) || (len(x.bhLog) >= n && len(x.progress) >= nodesPerBlock*n)
 			})
 		}
 		if v, ok := kv["out"]; ok {
 			n, _ := num(v)
-			w.waitFor("outbox of request "+strconv.Itoa(x.r), func() bool { x.mu.Lock(); defer x.mu.Unlock(); return len(x.outLog) >= n })
+			w.waitFor("outbox of request "+strconv.Itoa(x.r), func() bool {
+				x.mu.Lock()
+				defer x.mu.Unlock()
+				return isClosed(x) || len(x.outLog) >= n
+			})
 		}
 		if _, ok := kv["closed"]; ok {
 			w.waitFor("termination of request "+strconv.Itoa(x.r), func() bool { return isClosed(x) })
